@@ -39,6 +39,25 @@ class _Folder:
         for x in ast.walk(fn.node):
             if isinstance(x, ast.Name) and isinstance(x.ctx, ast.Store):
                 self.stored[x.id] = self.stored.get(x.id, 0) + 1
+        # names that are only ever bound by plain `name = value` statements outside loops and nested functions: their value
+        # can be followed statement by statement even when they are bound more than once (`p = make(); p = p.refined()`)
+        plain: Dict[str, int] = {}
+
+        def scan(stmts, in_loop):
+            for st_ in stmts:
+                if isinstance(st_, ast.Assign) and len(st_.targets) == 1 and isinstance(st_.targets[0], ast.Name) and not in_loop:
+                    plain[st_.targets[0].id] = plain.get(st_.targets[0].id, 0) + 1
+                if isinstance(st_, (ast.FunctionDef, ast.AsyncFunctionDef, ast.ClassDef)):
+                    continue
+                for fld in ('body', 'orelse', 'finalbody'):
+                    b_ = getattr(st_, fld, None)
+                    if isinstance(b_, list) and b_ and isinstance(b_[0], ast.stmt):
+                        scan(b_, in_loop or isinstance(st_, (ast.For, ast.While, ast.AsyncFor)))
+                for h_ in getattr(st_, 'handlers', []) or []:
+                    scan(h_.body, in_loop)
+        scan(fn.node.body, False)
+        self.sequential = {k for k, v in plain.items() if v == self.stored.get(k, 0) and k not in [a.arg for a in fn.params()]}
+        self._fresh = [0]
 
     # -- expressions ---------------------------------------------------------------------------------------------
     def const_node(self, e: ast.expr) -> Optional[ast.expr]:
@@ -71,8 +90,9 @@ class _Folder:
         if isinstance(e, ast.Call) and isinstance(e.func, (ast.Name, ast.Attribute)):
             sym = self.prog.resolve_expr_symbol(self.mod, e.func)
             if isinstance(sym, ClassInfo) and (sym.is_dataclass or any(str(b).split('.')[-1] == 'NamedTuple' for b in sym.bases)) \
-                    and not any(isinstance(x, ast.Name) and (x.id in self.stored) for x in ast.walk(e)):
-                return e        # a record object of the package built from constants / references
+                    and not any(isinstance(x, ast.Name) and (x.id in self.stored) and not (
+                        self.stored.get(x.id) == 1 and x.id in self.sequential) for x in ast.walk(e)):
+                return e        # a record object of the package built from constants / references / write-once locals
         return None
 
     def _all_assumptions(self) -> Dict[str, Any]:
@@ -185,6 +205,10 @@ class _Folder:
                             args[k.arg] = k.value
                     if e.attr in args:
                         return args[e.attr]
+                    if e.attr in fields:
+                        dflt = self.prog.class_fields(sym)[e.attr][1]
+                        if isinstance(dflt, ast.Constant):
+                            return dflt
             return e
         if isinstance(e, ast.Call):
             return self.fold_call(e)
@@ -193,8 +217,38 @@ class _Folder:
     def _record_fields(self, cls: ClassInfo) -> List[str]:
         return list(self.prog.class_fields(cls))
 
+    def _record(self, e: ast.expr):
+        """(class, {field: expr}) when `e` folds to a record object of the package written as a constructor call."""
+        base = self.const_node(self.fold(e))
+        if isinstance(base, ast.Call) and isinstance(base.func, (ast.Name, ast.Attribute)):
+            sym = self.prog.resolve_expr_symbol(self.mod, base.func)
+            if isinstance(sym, ClassInfo) and (sym.is_dataclass or any(str(b).split('.')[-1] == 'NamedTuple' for b in sym.bases)):
+                fields = self._record_fields(sym)
+                args = {}
+                for i, a in enumerate(base.args):
+                    if isinstance(a, ast.Starred) or i >= len(fields):
+                        return None
+                    args[fields[i]] = a
+                for k in base.keywords:
+                    if k.arg is None:
+                        return None
+                    args[k.arg] = k.value
+                return sym, args, base
+        return None
+
     def fold_call(self, e: ast.Call) -> ast.expr:
         f = e.func
+        if isinstance(f, ast.Attribute) and f.attr == '_replace' and not e.args and e.keywords and all(k.arg for k in e.keywords):
+            rec = self._record(f.value)
+            if rec is not None and any(str(b).split('.')[-1] == 'NamedTuple' for b in rec[0].bases):
+                cls_, args_, base_ = rec
+                fields = self._record_fields(cls_)
+                if all(k.arg in fields for k in e.keywords):
+                    new_args = dict(args_)
+                    for k in e.keywords:
+                        new_args[k.arg] = self.deep(k.value)
+                    return ast.copy_location(ast.Call(func=copy.deepcopy(base_.func), args=[], keywords=[
+                        ast.keyword(arg=fld, value=new_args[fld]) for fld in fields if fld in new_args]), e)
         if isinstance(f, ast.Name) and f.id == 'isinstance' and len(e.args) == 2:
             a = self.fold(e.args[0])
             if isinstance(a, ast.Constant) and isinstance(e.args[1], ast.Name):
@@ -287,10 +341,18 @@ class _Folder:
                     if leaves:
                         return out, True
                     continue
+                env0 = dict(self.env)
                 b1, l1 = self.block(st.body)
-                saved = dict(self.env)
+                env1 = self.env
+                self.env = dict(env0)
                 b2, l2 = self.block(st.orelse)
-                self.env = {k: v for k, v in saved.items() if k in self.env and self.env[k] is v}
+                env2 = self.env
+                if l1 and not l2:
+                    self.env = env2
+                elif l2 and not l1:
+                    self.env = env1
+                else:
+                    self.env = {k: v for k, v in env1.items() if k in env2 and env2[k] is v}
                 out.append(ast.copy_location(ast.If(test=t, body=b1 or [ast.Pass()], orelse=b2), st))
                 if l1 and l2:
                     return out, True
@@ -312,6 +374,11 @@ class _Folder:
                 out.append(new)
                 continue
             if isinstance(st, ast.Return):
+                if st.value is not None:
+                    inl = self._inline_value_call(st.value)
+                    if inl is not None:
+                        out.extend(self.block(inl[0])[0])
+                        st = ast.copy_location(ast.Return(value=inl[1]), st)
                 val = self.deep(st.value) if st.value is not None else None
                 # `return helper(consts)` where the helper, specialised with those constants, only raises: the raise itself
                 if isinstance(val, ast.Call) and isinstance(val.func, (ast.Name, ast.Attribute)) and self.depth < 4:
@@ -333,11 +400,24 @@ class _Folder:
                 return out, True
             if isinstance(st, (ast.Assign, ast.AnnAssign)) and getattr(st, 'value', None) is not None:
                 tgt = st.targets[0] if isinstance(st, ast.Assign) and len(st.targets) == 1 else getattr(st, 'target', None)
+                if isinstance(tgt, ast.Name) and (self.stored.get(tgt.id, 0) == 1 or tgt.id in self.sequential):
+                    inl = self._inline_value_call(st.value)
+                    if inl is not None:
+                        pre, val0 = inl
+                        out.extend(self.block(pre)[0])
+                        st = ast.copy_location(ast.Assign(targets=[tgt], value=val0), st)
                 val = self.deep(st.value)
                 c = self.const_node(val)
-                if isinstance(tgt, ast.Name) and self.stored.get(tgt.id, 0) == 1 and c is not None:
+                if isinstance(tgt, ast.Name) and (self.stored.get(tgt.id, 0) == 1 or tgt.id in self.sequential) and c is not None:
                     self.env[tgt.id] = c
+                    if isinstance(c, ast.Call) and any(isinstance(x, ast.Name) and x.id in self.stored for x in ast.walk(c)):
+                        # a record over write-once locals: known to the folder, and still defined for the code that names it
+                        new = copy.copy(st)
+                        new.value = val
+                        out.append(new)
                     continue
+                if isinstance(tgt, ast.Name) and tgt.id not in self.preset:
+                    self.env.pop(tgt.id, None)
                 if isinstance(tgt, (ast.Tuple, ast.List)) and isinstance(c, (ast.Tuple, ast.List)) and len(c.elts) == len(tgt.elts) and \
                         all(isinstance(t_, ast.Name) and self.stored.get(t_.id, 0) == 1 for t_ in tgt.elts):
                     for t_, v_ in zip(tgt.elts, c.elts):
@@ -393,6 +473,105 @@ class _Folder:
                 return node
         return T().visit(copy.deepcopy(st))
 
+    def _inline_value_call(self, e: ast.expr) -> Optional[Tuple[List[ast.stmt], ast.expr]]:
+        """`x = callee(args)` / `return callee(args)` where the callee - a function of the package, `Class.classmethod(...)`,
+        or a method of a record object this folder knows (`prefixes.bulletized(...)`) - specialised with the constant
+        arguments is a straight line `a = ..; b = ..; return E`: (those assignments with the locals renamed apart, E), with
+        the remaining parameters replaced by the (side-effect free) argument expressions.  None when it is not of that form."""
+        if not isinstance(e, ast.Call) or self.depth >= 4 or not isinstance(e.func, (ast.Name, ast.Attribute)):
+            return None
+        if any(isinstance(a, ast.Starred) for a in e.args) or any(k.arg is None for k in e.keywords):
+            return None
+        f = e.func
+        m: Optional[FuncInfo] = None
+        bound: Dict[str, ast.expr] = {}
+        sym = self.prog.resolve_expr_symbol(self.mod, f)
+        if isinstance(sym, FuncInfo) and sym.cls is None and sym.parent is None:
+            m = sym
+        elif isinstance(f, ast.Attribute):
+            owner = self.prog.resolve_expr_symbol(self.mod, f.value) if isinstance(f.value, (ast.Name, ast.Attribute)) else None
+            if isinstance(owner, ClassInfo):
+                mm = self.prog.lookup_method(owner, f.attr)
+                if mm is not None and getattr(mm, 'is_classmethod', False):
+                    m, bound = mm, {mm.params()[0].arg: f.value}
+                elif mm is not None and mm.is_static:
+                    m = mm
+            elif not (isinstance(f.value, ast.Name) and f.value.id == 'self'):
+                rec = self._record(f.value)
+                if rec is not None:
+                    mm = self.prog.lookup_method(rec[0], f.attr)
+                    if mm is not None and not mm.is_property and not mm.is_static and not getattr(mm, 'is_classmethod', False):
+                        m, bound = mm, {mm.params()[0].arg: rec[2]}
+        if m is None or m is self.fn or m.fq in self.stack or not m.module.name.startswith('dznpy'):
+            return None
+        if any(isinstance(x, (ast.Yield, ast.YieldFrom, ast.Global, ast.Nonlocal, ast.Await)) for x in ast.walk(m.node)):
+            return None
+        a = m.node.args
+        if a.vararg or a.kwarg:
+            return None
+        names = [p_.arg for p_ in list(a.posonlyargs) + list(a.args)]
+        free = [n_ for n_ in names if n_ not in bound]
+        if len(e.args) > len(free):
+            return None
+        binding: Dict[str, ast.expr] = dict(bound)
+        for n_, v_ in zip(free, e.args):
+            binding[n_] = self.deep(v_)
+        for k in e.keywords:
+            if k.arg in binding or k.arg not in names + [x.arg for x in a.kwonlyargs]:
+                return None
+            binding[k.arg] = self.deep(k.value)
+        pos_all = list(a.posonlyargs) + list(a.args)
+        defaults = dict(zip([x.arg for x in pos_all][len(pos_all) - len(a.defaults):], a.defaults))
+        defaults.update({x.arg: d for x, d in zip(a.kwonlyargs, a.kw_defaults) if d is not None})
+        for n_ in names + [x.arg for x in a.kwonlyargs]:
+            if n_ not in binding:
+                if n_ in defaults and isinstance(defaults[n_], ast.Constant):
+                    binding[n_] = defaults[n_]
+                else:
+                    return None
+
+        def pure(x_: ast.expr) -> bool:
+            return all(isinstance(y, (ast.Name, ast.Attribute, ast.Constant, ast.expr_context)) for y in ast.walk(x_))
+        cenv = {}
+        for k_, v_ in binding.items():
+            c_ = self.const_node(v_)
+            if c_ is not None:
+                cenv[k_] = c_
+            elif not pure(v_):
+                return None
+        sub = _Folder(self.prog, m, cenv, self.depth + 1, self.stack)
+        if any(sub.stored.get(k_, 0) for k_ in binding):
+            return None          # the callee rebinds a parameter
+        body = [st for st in m.node.body if not (isinstance(st, ast.Expr) and isinstance(st.value, ast.Constant))]
+        res, _leaves = sub.block(body)
+        res = [st for st in res if not isinstance(st, ast.Pass)]
+        if not res or not isinstance(res[-1], ast.Return) or res[-1].value is None:
+            return None
+        for st in res[:-1]:
+            if not (isinstance(st, ast.Assign) and len(st.targets) == 1 and isinstance(st.targets[0], ast.Name)):
+                return None
+        self._fresh[0] += 1
+        tag = f'__k{self.depth}_{self._fresh[0]}'
+        local = {st.targets[0].id for st in res[:-1]}
+        outer = self
+
+        class Sub(ast.NodeTransformer):
+            def visit_Name(s_, node):
+                if node.id in local:
+                    return ast.copy_location(ast.Name(id=node.id + tag, ctx=node.ctx), node)
+                if node.id in binding and isinstance(node.ctx, ast.Load):
+                    return copy.deepcopy(binding[node.id])
+                return node
+        new = [Sub().visit(copy.deepcopy(st)) for st in res]
+        for nm in local:
+            self.stored[nm + tag] = 1
+            self.sequential.add(nm + tag)
+        for st in new:
+            for x in ast.walk(st):
+                if isinstance(x, (ast.expr, ast.stmt)):
+                    ast.copy_location(x, e)
+        return new[:-1], new[-1].value
+
     def _inline_self_call(self, call: ast.Call) -> Optional[List[ast.stmt]]:
         """`self.<m>(args)` as a statement: the residual body of m with its parameters replaced by the arguments."""
         f = call.func
@@ -441,7 +620,93 @@ def residual(prog: Program, fn: FuncInfo, bindings: Dict[str, Any], depth: int =
                 continue
         body.append(st)
     out, _leaves = folder.block(body)
+    out2 = _streams_to_comprehensions(out)
+    if out2 is not out:
+        # the comprehension bodies call the mapped function with constants now: fold once more
+        out, _leaves = _Folder(prog, fn, {}, depth, (), asm).block(out2)
     return out
+
+
+def _constant_stream(e: ast.expr):
+    """An endless stream of constants written with itertools: ('repeat', c) for `repeat(c)`;
+    ('head', [c1..], c) for `chain((c1, ..), repeat(c))` / `chain([c1], repeat(c))`.  None otherwise."""
+    def name(f):
+        return f.id if isinstance(f, ast.Name) else f.attr if isinstance(f, ast.Attribute) else ''
+    if isinstance(e, ast.Call) and name(e.func) == 'repeat' and len(e.args) == 1 and not e.keywords and isinstance(e.args[0], ast.Constant):
+        return 'repeat', e.args[0]
+    if isinstance(e, ast.Call) and name(e.func) == 'chain' and len(e.args) == 2 and not e.keywords and \
+            isinstance(e.args[0], (ast.Tuple, ast.List)) and e.args[0].elts and all(isinstance(x, ast.Constant) for x in e.args[0].elts):
+        tail = _constant_stream(e.args[1])
+        if tail is not None and tail[0] == 'repeat':
+            return 'head', list(e.args[0].elts), tail[1]
+    return None
+
+
+def _streams_to_comprehensions(stmts: List[ast.stmt]) -> List[ast.stmt]:
+    """`return list(map(F, A, S))` / `return [E for x, b in zip(A, S)]` with S an endless stream of constants (the function
+    is applied to each element of the finite A together with the next constant) in the comprehension form the shape rules
+    read:
+        repeat(c):                  lines = A;  return [F(x, c) for x in lines]
+        chain((c1,), repeat(c)):    lines = A;  if not lines: return [];  return [F(lines[0], c1)] + [F(x, c) for x in lines[1:]]"""
+    if not stmts or not isinstance(stmts[-1], ast.Return) or stmts[-1].value is None:
+        return stmts
+    ret = stmts[-1]
+    v = ret.value
+    if isinstance(v, ast.Call) and isinstance(v.func, ast.Name) and v.func.id in ('list', 'tuple') and len(v.args) == 1 and not v.keywords:
+        v = v.args[0]
+    elem = None          # (seq expr, stream, builder(x_expr, const) -> expr)
+    if isinstance(v, ast.Call) and isinstance(v.func, ast.Name) and v.func.id == 'map' and len(v.args) == 3 and not v.keywords:
+        stream = _constant_stream(v.args[2])
+        f = v.args[0]
+        if stream is not None and isinstance(f, (ast.Name, ast.Attribute)):
+            elem = (v.args[1], stream, lambda x, c: ast.Call(func=copy.deepcopy(f), args=[x, copy.deepcopy(c)], keywords=[]))
+    elif isinstance(v, (ast.ListComp, ast.GeneratorExp)) and len(v.generators) == 1 and not v.generators[0].ifs and \
+            isinstance(v.generators[0].iter, ast.Call) and isinstance(v.generators[0].iter.func, ast.Name) and \
+            v.generators[0].iter.func.id == 'zip' and len(v.generators[0].iter.args) == 2 and \
+            isinstance(v.generators[0].target, ast.Tuple) and len(v.generators[0].target.elts) == 2 and \
+            all(isinstance(t, ast.Name) for t in v.generators[0].target.elts):
+        stream = _constant_stream(v.generators[0].iter.args[1])
+        xn, bn = (t.id for t in v.generators[0].target.elts)
+        body_e = v.elt
+        if stream is not None:
+            def build(x, c, _e=body_e, _xn=xn, _bn=bn):
+                class Sub(ast.NodeTransformer):
+                    def visit_Name(s_, node):
+                        if node.id == _xn and isinstance(node.ctx, ast.Load):
+                            return copy.deepcopy(x)
+                        if node.id == _bn and isinstance(node.ctx, ast.Load):
+                            return copy.deepcopy(c)
+                        return node
+                return Sub().visit(copy.deepcopy(_e))
+            elem = (v.generators[0].iter.args[0], stream, build)
+    if elem is None or (ret.value is v and not isinstance(v, ast.ListComp)):
+        return stmts        # (a bare map / generator is an iterator, not a list)
+    seq, stream, build = elem
+    lines = ast.Name(id='lines__s', ctx=ast.Load())
+    xvar = ast.Name(id='x__s', ctx=ast.Load())
+    new: List[ast.stmt] = list(stmts[:-1])
+    new.append(ast.Assign(targets=[ast.Name(id='lines__s', ctx=ast.Store())], value=seq, lineno=ret.lineno, col_offset=0))
+
+    def comp(over: ast.expr, c) -> ast.expr:
+        return ast.ListComp(elt=build(xvar, c), generators=[ast.comprehension(
+            target=ast.Name(id='x__s', ctx=ast.Store()), iter=over, ifs=[], is_async=0)])
+    if stream[0] == 'repeat':
+        new.append(ast.Return(value=comp(lines, stream[1])))
+    else:
+        heads, rest = stream[1], stream[2]
+        new.append(ast.If(test=ast.UnaryOp(op=ast.Not(), operand=lines), body=[ast.Return(value=ast.List(elts=[], ctx=ast.Load()))], orelse=[]))
+        if len(heads) != 1:
+            return stmts
+        first = ast.List(elts=[build(ast.Subscript(value=lines, slice=ast.Constant(value=0), ctx=ast.Load()), heads[0])], ctx=ast.Load())
+        tail = comp(ast.Subscript(value=lines, slice=ast.Slice(lower=ast.Constant(value=1), upper=None, step=None), ctx=ast.Load()), rest)
+        new.append(ast.Return(value=ast.BinOp(left=first, op=ast.Add(), right=tail)))
+    for st in new[len(stmts) - 1:]:
+        for x in ast.walk(st):
+            if isinstance(x, (ast.expr, ast.stmt)) and not hasattr(x, 'lineno'):
+                x.lineno, x.col_offset = ret.lineno, ret.col_offset
+                x.end_lineno, x.end_col_offset = getattr(ret, 'end_lineno', ret.lineno), getattr(ret, 'end_col_offset', 0)
+        ast.fix_missing_locations(st)
+    return new
 
 
 def bound_in_nested(fn: FuncInfo, name: str) -> bool:
